@@ -39,11 +39,11 @@ static inline u8 H(u32 salt, u32 seq) { u32 x = (seq ^ salt) * 0x9E3779B1u; x ^=
 static inline int seqcmp(u32 a, u32 b) { int32_t d = (int32_t)(a - b); return d < 0 ? -1 : d > 0 ? 1 : 0; }
 
 struct Pkt {
-    int script = -1; Ep src, dst; u8 flags = 0; u32 seq = 0, ack = 0, len = 0; bool raw = false;
+    int script = -1; Ep src, dst; u8 flags = 0; u8 xflags = 0; u32 seq = 0, ack = 0, len = 0; bool raw = false;      // xflags: URG/ECE/CWR, bits no clause of C07 depends on (ECN-setup SYNs carry ECE|CWR)
     std::vector<u32> sack; bool mss = false; u16 mssv = 1460; bool sackp = false; u64 ts = 0; u8 link = 0; bool bytes_enc = false;
 };
 static std::string show(const Pkt& p) {
-    std::string f; if (p.flags & F_SYN) f += "S"; if (p.flags & F_FIN) f += "F"; if (p.flags & F_RST) f += "R"; if (p.flags & F_ACK) f += "."; if (p.flags & F_PSH) f += "P";
+    std::string f; if (p.flags & F_SYN) f += "S"; if (p.flags & F_FIN) f += "F"; if (p.flags & F_RST) f += "R"; if (p.flags & F_ACK) f += "."; if (p.flags & F_PSH) f += "P"; if (p.xflags & 0x20) f += "U"; if (p.xflags & 0x40) f += "E"; if (p.xflags & 0x80) f += "C";
     std::string s = "t=" + std::to_string(p.ts) + " #" + std::to_string(p.script) + " " + show(p.src) + ">" + show(p.dst) + " [" + f + "] seq=" + std::to_string(p.seq) + " ack=" + std::to_string(p.ack) + " len=" + std::to_string(p.len) + (p.raw ? "" : " (no payload layer)");
     if (p.mss) s += " mss=" + std::to_string(p.mssv); if (p.sackp) s += " sackOK";
     if (!p.sack.empty()) { s += " sack="; for (size_t i = 0; i + 1 < p.sack.size(); i += 2) s += "(" + std::to_string(p.sack[i]) + "," + std::to_string(p.sack[i + 1]) + ")"; }
@@ -241,7 +241,7 @@ static Bytes encode(const Pkt& p, const u8* payload) {
     Bytes opt; if (p.mss) { opt.push_back(2); opt.push_back(4); put16(opt, p.mssv); } if (p.sackp) { opt.push_back(4); opt.push_back(2); }
     if (!p.sack.empty()) { opt.push_back(5); opt.push_back((u8)(2 + 4 * p.sack.size())); for (u32 e : p.sack) put32(opt, e); }
     while (opt.size() % 4) opt.push_back(1);
-    tcp.push_back((u8)(((20 + opt.size()) / 4) << 4)); tcp.push_back(p.flags); put16(tcp, 65535); put16(tcp, 0); put16(tcp, 0);
+    tcp.push_back((u8)(((20 + opt.size()) / 4) << 4)); tcp.push_back((u8)(p.flags | p.xflags)); put16(tcp, 65535); put16(tcp, 0); put16(tcp, 0);
     tcp.insert(tcp.end(), opt.begin(), opt.end()); tcp.insert(tcp.end(), payload, payload + p.len);
     Bytes out;
     if (p.link == 0) { u8 m[6]; mac_of(p.dst, m); out.insert(out.end(), m, m + 6); mac_of(p.src, m); out.insert(out.end(), m, m + 6); put16(out, p.src.v6 ? 0x86dd : 0x0800); }
@@ -263,7 +263,7 @@ static PDU* build(const Pkt& p) {
         return new IP(eb.data(), (u32)eb.n);
     }
     cnt("pkt:built-as-objects");
-    TCP* t = new TCP(p.dst.port, p.src.port); t->seq(p.seq); t->ack_seq(p.ack); t->flags(p.flags);
+    TCP* t = new TCP(p.dst.port, p.src.port); t->seq(p.seq); t->ack_seq(p.ack); t->flags((u8)(p.flags | p.xflags));
     if (p.mss) t->mss(p.mssv); if (p.sackp) t->sack_permitted();
     if (!p.sack.empty()) t->sack(p.sack);
     if (p.raw) t->inner_pdu(new RawPDU(pl.data(), (u32)pl.size()));
@@ -345,7 +345,9 @@ struct Gen {
     }
     Pkt mk(const Script& sc, int idx, bool from_c, u8 flags, u32 seq, u32 ack, u32 len) {
         Pkt p; p.script = idx; p.src = from_c ? sc.c : sc.s; p.dst = from_c ? sc.s : sc.c; p.flags = flags; p.seq = seq; p.ack = ack; p.len = len; p.raw = len > 0;
-        p.bytes_enc = r.below(10) < (u32)cfg.bytes_share && len < 60000; p.link = r.chance(3, 4) ? 0 : 1; return p;
+        p.bytes_enc = r.below(10) < (u32)cfg.bytes_share && len < 60000; p.link = r.chance(3, 4) ? 0 : 1;
+        if (r.chance(1, 5)) { p.xflags = (flags & F_SYN) ? (u8)((flags & F_ACK) ? 0x40 : 0xc0) : (u8)((r.below(8)) << 5); if (p.xflags) cnt((flags & F_SYN) ? "pkt:ecn-setup-syn" : "pkt:urg-ece-cwr-bits"); }
+        return p;
     }
     void handshake(Script& sc, int idx, u32 ic, u32 is, bool third = true) {
         static const u16 mv[] = {1460, 536, 1, 65535, 0, 9000};
